@@ -149,7 +149,7 @@ mod search_c04 {
             for i in 0..12u8 {
                 let pid = format!("{:02x}", i).repeat(32);
                 let key = crate::dht::derive_dht_key_from_peer_id(&pid);
-                let place = r.below(3); // 0 table only, 1 connected only, 2 both
+                let place = r.below(4); // 0 table only, 1 connected only, 2 both, 3 both but the transport knows no address of the connected peer
                 if place != 1 {
                     let mut dht = mgr.dht.write().await;
                     let node = crate::dht::NodeInfo { id: DhtNodeId::from_bytes(key), address: format!("10.{}.0.1:9000", i + 1), last_seen: std::time::SystemTime::now(), capacity: crate::dht::NodeCapacity::default() };
@@ -157,7 +157,7 @@ mod search_c04 {
                 }
                 if place != 0 {
                     let addr: Multiaddr = format!("10.{}.0.1:9000", i + 1).parse().expect("addr");
-                    mgr.dht_peers.write().await.insert(pid.clone(), DhtPeerInfo { peer_id: pid.clone(), dht_key: key, addresses: vec![addr], last_seen: Instant::now(), is_connected: true, avg_latency: Duration::from_millis(5), reliability_score: 1.0 });
+                    mgr.dht_peers.write().await.insert(pid.clone(), DhtPeerInfo { peer_id: pid.clone(), dht_key: key, addresses: if place == 3 { Vec::new() } else { vec![addr] }, last_seen: Instant::now(), is_connected: true, avg_latency: Duration::from_millis(5), reliability_score: 1.0 });
                     connected.push(pid);
                 }
             }
